@@ -5,7 +5,9 @@ SPEC = dict(
                     n={"quick": 1500, "thorough": 60000})],
     rule="URLs generated from components: 12 schemes (valid, unsupported, upper case, empty) x credentials (none / user / user:password, "
          "escaped characters) x hosts (none, name, name:port, IPv4, bracketed IPv6 with and without port, :port) x paths (none, /, /n, "
-         "signed, overflowing, non numeric, nested; socket paths with escaped blanks) x any subset of the 11 query parameters with valid "
+         "signed, overflowing, non numeric, nested; socket paths with escaped blanks) x multi-valued addr lists (2-4 entries mixing "
+         "host:port, [v6]:port, :port and port-less entries in any order; expected InitAddress from an independent reading of the "
+         "documented rule) x any subset of the 11 query parameters with valid "
          "and invalid values and repeated keys, plus texts net/url rejects; a case is non-trivial when it has credentials, a path or a "
          "query; distinct by URL text",
     trusted=["net/url.Parse, url.Values, net.SplitHostPort, time.ParseDuration, strings.TrimSpace: the model takes their results as input "
@@ -22,7 +24,8 @@ MANIFEST = dict(
          "protocol, client_cache, client_name, max_retries, master_set, skip_verify), each depending only on its own part of the URL "
          "(non-interference theorem). The model is tied to url.go on every run (real ParseURL on generated URL texts vs the model on the "
          "structure net/url produced), plus a direct oracle built from the generator's components.",
-    note="The defect found (write_timeout was stored into Dialer.Timeout, overwriting dial_timeout; ConnWriteTimeout never set) is repaired "
+    note="Open findings (characterised, not repaired): an addr entry without a port loses its host; the default host of host-less entries "
+         "is u.Host verbatim (C44_addr_rule_refuted / _characterised, known_findings.d/acc.json). The defect found (write_timeout was stored into Dialer.Timeout, overwriting dial_timeout; ConnWriteTimeout never set) is repaired "
          "in the repository (fix: commit in known_findings.d/acc.json); theorems are about the repaired code. Code behaviours kept as they are "
          "and stated in the theorems: a path of just \"/\" is rejected (empty database number); skip_verify is not validated on non-TLS "
          "schemes; protocol / client_cache / max_retries are equality tests with no invalid value; an addr value without host takes the "
